@@ -43,6 +43,9 @@ def run(ctx):
         procs = []
         for (n, w, ma) in combos:
             procs.append((pipeline(ctx, "w%da%d" % (w, ma), "c01", [n, w, ma]), w))
+        # the same with a source that takes its finish notifications slowly (back-pressure on the finisher)
+        for (n, w, ma, slow) in ([(30, 2, 2, 40)] if quick else [(60, 2, 2, 40), (80, 3, 1, 25)]):
+            procs.append((pipeline(ctx, "w%da%ds%d" % (w, ma, slow), "c01", [n, w, ma, slow]), w))
         traces = []
         for (p, t, d), w in procs:
             try:
